@@ -168,8 +168,11 @@ pub fn generate_with(rng: &mut Rng, pp: &mut ParsedPacket, max_ops: usize, first
                 };
                 let text: Vec<u8> = text.into_iter().filter(|&c| c != 0).collect();
                 let ne = rng.chance(1, 5);
+                // text that is not UTF-8 has no native counterpart (the native call takes a &str): the
+                // table must fail with a retrievable description, whose wording is not compared
+                let no_native = std::str::from_utf8(&text).is_err();
                 s.u8(8);
-                s.u8(ne as u8);
+                s.u8(if ne { 1 } else if no_native { 2 } else { 0 });
                 s.u8(sec as u8);
                 s.u16(text.len() as u16);
                 s.raw(&text);
@@ -178,7 +181,13 @@ pub fn generate_with(rng: &mut Rng, pp: &mut ParsedPacket, max_ops: usize, first
                     Ok(t) => pp.insert_rr_from_string(section, t).map_err(|e| e.to_string()),
                 };
                 l.u8(8);
-                l.ret_n(&r, ne);
+                if no_native && !ne {
+                    l.u8(1);
+                    l.u8(0xfd);
+                    l.u8(1);
+                } else {
+                    l.ret_n(&r, ne);
+                }
                 sigs.push(format!("add|{}|{}|null{}", sec, r.is_ok(), ne as u8));
                 ops.push(format!("add_to_{:?}({:?}) -> {:?}", section, String::from_utf8_lossy(&text[..text.len().min(60)]), r.is_ok()));
             }
@@ -585,9 +594,19 @@ impl<'a> RRun<'a> {
         v
     }
     unsafe fn lg_ret(&mut self, ret: c_int, err: *const CErr, null_err: bool) {
+        self.lg_ret_mode(ret, err, null_err as u8)
+    }
+    /// mode 0: description compared byte for byte; 1: err == NULL; 2: only "a description is retrievable"
+    unsafe fn lg_ret_mode(&mut self, ret: c_int, err: *const CErr, mode: u8) {
         self.log.u8(if ret == 0 { 0 } else if ret == -1 { 1 } else { 2 });
-        if null_err {
+        if mode == 1 {
             self.log.u8(0xfe);
+            return;
+        }
+        if mode == 2 {
+            let d = if ret == -1 && !err.is_null() { (self.t.error_description)(err) } else { std::ptr::null() };
+            self.log.u8(0xfd);
+            self.log.u8((!d.is_null() && *d != 0) as u8);
             return;
         }
         if ret == -1 {
@@ -791,15 +810,15 @@ pub fn rust_driver(t: &RawTable, pp: &mut ParsedPacket, script: &[u8]) -> Vec<u8
                     }
                 }
                 8 => {
-                    let ne = r.rd8() != 0;
+                    let ne = r.rd8();
                     let sec = r.rd8() as usize;
                     let len = r.rd16() as usize;
                     let text = r.rdn(len);
                     let c = CString::new(text).unwrap_or_default();
                     let mut err: *const CErr = std::ptr::null();
-                    let ret = (t.add[sec.min(3)])(ppp, if ne { std::ptr::null_mut() } else { &mut err }, c.as_ptr());
+                    let ret = (t.add[sec.min(3)])(ppp, if ne == 1 { std::ptr::null_mut() } else { &mut err }, c.as_ptr());
                     r.log.u8(8);
-                    r.lg_ret(ret, err, ne);
+                    r.lg_ret_mode(ret, err, ne);
                 }
                 9 => {
                     let cap = r.rd16() as usize;
